@@ -19,7 +19,7 @@ static const char *MFLAGN[] = { "-", "ALLOW_REPLACE", "PERSIST", "DENY_CTX", "DE
 static const int ERRNOS[] = { EINTR, EAGAIN, ENOENT, EBADF };
 static const size_t UNST[] = { 1, 2, 3, 5, SIZE_MAX };
 static const size_t BSZ[] = { 0, 1, 2, 3 };
-enum { INJ_WRITE_EAGAIN, INJ_EPOLL_EINTR, INJ_EPOLL_EBADF };
+enum { INJ_WRITE_EAGAIN, INJ_EPOLL_EINTR, INJ_EPOLL_EBADF, INJ_CTL_DEL };
 
 static m_mod_t *handle(int s) { return MD[s].present ? MD[s].h : (MD[s].extra > 0 ? MD[s].ptr : NULL); }
 static int mflag(int s, m_mod_flags f) { return MD[s].present && (MFLAGS[MD[s].flagsidx] & f) != 0; }
@@ -89,7 +89,7 @@ static void run_armed(int s, int kind) {
                 if (legal && rc != 0) vfail("SH.admit", "SH.admit|refused", "m_mod_stash of a normal-priority event by RUNNING %s returned %d", MD[s].name, rc);
                 if (!legal && rc >= 0) vfail("SH.admit", "SH.admit|accepted", "m_mod_stash accepted although %s", prio_high ? "the event is high priority" : "the module is not RUNNING");
             }
-            if (rc == 0 && r >= 0) { MD[s].stash[MD[s].nst++] = r; EV[r].refs++; }
+            if (rc == 0 && r >= 0) { MD[s].stash[MD[s].nst++] = r; EV[r].refs++; MD[s].life |= 8; }
         }
         break; }
     case A_RETAIN: {
